@@ -1126,6 +1126,9 @@ static tErrorNum DeduceExpectTypeErrMsgMask(unsigned Mask, TempType ActType) {
             return ErrNum_ExpectString;
         case TempInt | TempString:
             return ErrNum_ExpectIntOrString;
+        /* no message of its own for 'number expected': */
+        case TempFloat:
+        case TempInt | TempFloat:
         case TempInt | TempFloat | TempString:
             return ErrNum_StringOrIntOrFloatButReg;
         default:
@@ -1632,14 +1635,27 @@ void EvalStrExpression(tStrComp const* pExpr, TempResult* pErg) {
             LEAVE;
         }
         for (z1 = 0; z1 < cnt; z1++) {
-            if ((InVals[z1].Typ == TempInt)
-                && (!(pFunction->ArgTypes[z1] & (1 << TempInt)))) {
+            /* ArgTypes[] is coded as (1 << Typ), DeduceExpectTypeErrMsgMask()
+               wants a mask of TempType values: */
+
+            unsigned TypeMask = 0;
+
+            if (pFunction->ArgTypes[z1] & (1 << TempInt)) {
+                TypeMask |= TempInt;
+            }
+            if (pFunction->ArgTypes[z1] & (1 << TempFloat)) {
+                TypeMask |= TempFloat;
+            }
+            if (pFunction->ArgTypes[z1] & (1 << TempString)) {
+                TypeMask |= TempString;
+            }
+            if ((InVals[z1].Typ == TempInt) && !(TypeMask & TempInt)
+                && (TypeMask & TempFloat)) {
                 TempResultToFloat(&InVals[z1]);
             }
-            if (!(pFunction->ArgTypes[z1] & (1 << InVals[z1].Typ))) {
+            if (!(TypeMask & InVals[z1].Typ)) {
                 WrStrErrorPos(
-                        DeduceExpectTypeErrMsgMask(
-                                pFunction->ArgTypes[z1], InVals[z1].Typ),
+                        DeduceExpectTypeErrMsgMask(TypeMask, InVals[z1].Typ),
                         &InArgs[z1]);
                 LEAVE;
             }
